@@ -11,6 +11,7 @@ INVARIANT ThinAxis
 INVARIANT ExactlyOneOwnerHalfPixel
 INVARIANT ClosedWindowHazard
 INVARIANT LandscapeEdge
+INVARIANT SideMaxima
 INVARIANT EmitEven
 INVARIANT BallNotCube
 INVARIANT EmitSlab
